@@ -24,9 +24,12 @@ VERIF = os.path.dirname(os.path.dirname(os.path.abspath(__file__)))
 PRELOAD = ["edgegraph.structure", "edgegraph.structure.universe", "edgegraph.structure.singleton",
            "edgegraph.builder.explicit", "edgegraph.builder.adjlist", "edgegraph.builder.adjmatrix",
            "edgegraph.builder.randgraph", "edgegraph.traversal.helpers", "edgegraph.traversal.breadthfirst",
-           "edgegraph.traversal.depthfirst", "edgegraph.output.plaintext", "edgegraph.output.plantuml"]
+           "edgegraph.traversal.depthfirst", "edgegraph.output.plaintext", "edgegraph.output.plantuml",
+           "edgegraph.output.pyvis"]
 
-EXTRA_SOURCES = {"refmodel": os.path.join(VERIF, "harness", "refmodel.py")}
+EXTRA_SOURCES = {"refmodel": os.path.join(VERIF, "harness", "refmodel.py"),
+                 "pyvis": os.path.join(VERIF, "harness", "pyvis_pkg_stub.py"),
+                 "pyvis.network": os.path.join(VERIF, "harness", "pyvis_stub.py")}
 
 _W = {"interp": None, "native": None, "common": None, "ast": {}}
 
